@@ -86,12 +86,33 @@ DESC = {
     "C17-D": ("authentication looks the credential up under standard base64(application) while registration files it under base64url", ""),
     "C18-C": ("trait `get_info` serves a cached `rk` bit that is never invalidated", "sequences of 2–4 operations on the same authenticator with store-capability flips in between added"),
     "C18-D": ("trait route enforces a 1024-byte message limit the direct methods do not have", "requests with 20–45 list entries (> 1 KiB) added"),
+    # ---- round 3 (ten richest properties; seeders were given the four earlier changes per property)
+    "C02-E": ("COSE `x`/`y` written as minimal-length integers (leading zero bytes dropped) while the DER converter pads: about 1 registration in 64 carries a 31-byte coordinate", ""),
+    "C02-F": ("Android path validates the requested RP ID but returns the asset-link host: credential bound to / rpIdHash of `app.example.com` instead of `example.com`", "Android application origins (asset-link host, RP ID a proper suffix of it) added to the ceremony workload"),
+    "C03-E": ("signature covers `client_data_hash.iter().take(32)`: caller-supplied hashes longer than 32 bytes are truncated before signing", "caller-supplied hashes of 0, 20, 33, 48 and 64 bytes added (client and CTAP level)"),
+    "C03-F": ("same slip as C02-F seen from the assertion side (host returned instead of the effective RP ID on the Android path)", "Android application origins added to the ceremony workload"),
+    "C04-E": ("flag derivation moved before enforcement with `UP | UV` for a verified user: outcome (presence=false, verification=true) passes a presence requirement", ""),
+    "C04-F": ("client helper `map_uv` downgrades `required` when the authenticator reports no verification capability (guard covers the whole or-pattern)", ""),
+    "C05-E": ("all lookup results kept, consent shows `first()`, signing uses the first *convertible* item: with a store whose items are not `Passkey`s a later-listed credential signs", "conforming store with vault items (a third unconvertible) added: part (d)"),
+    "C05-F": ("`Client::register` drops exclude-list descriptors whose transport hints do not intersect the authenticator's transports; an emptied list skips the exclusion check", "client-level registrations / authentications with transport-hinted descriptors added: part (c)"),
+    "C07-E": ("`counter.checked_add(1)` assigned directly: at u32::MAX the record written back has lost its counter", "authentication shapes with stored counters at u32::MAX added"),
+    "C07-F": ("`Option<Passkey>::save_credential` uses `get_or_insert`: on an occupied slot registration succeeds but the old credential stays", "registrations through the shipped stores and their lock wrappers, empty or occupied, added"),
+    "C09-E": ("`make_hmac_secret` no longer returns early without configuration: an authenticator without the capability stores a PRF secret", ""),
+    "C09-F": ("client reuses the converted default salts for an `evalByCredential` entry whose `first` equals the default's `first` (second never compared, length check skipped)", ""),
+    "C13-E": ("`FieldVisitor::visit_str` propagates the lookup error: unknown text keys fail the decode instead of being ignored", ""),
+    "C13-F": ("duplicate check removed from the `deserialize_with` arm of the macro: getInfo key 9 may repeat, last wins", ""),
+    "C14-E": ("`timeout` of request options uses `ignore_unknown` instead of `maybe_stringified`: string / float timeouts silently become absent", ""),
+    "C14-F": ("descriptor `transports` loses `ignore_unknown_opt_vec`: an unknown transport drops the whole descriptor or fails the document", ""),
+    "C15-E": ("U2F authenticate control byte checked by range `0x03..=0x08`: P1 4, 5, 6 reach `unreachable!()` in the parameter conversion", "well-formed authenticate frames under every control byte 0..255 added"),
+    "C15-F": ("CTAPHID `Message::init` pre-sizes the payload buffer from the declared length: 64-byte packets on distinct channels each pin 64 KiB", "sequences of 80-2500 unfinished initialisation packets on distinct channels added"),
+    "C19-E": ("`save_credential` only when the credential is discoverable (same effect as C07-D, found again independently)", ""),
+    "C19-F": ("counter advanced only when the UP flag is set: silent assertions reuse the previous counter", "silent assertions (no presence / verification asked or reported) added to the scheduler configurations"),
 }
 
 
 def main():
     rows = []
-    for d in sorted(glob.glob(os.path.join(ROOT, "seeded", "C*-[ABCD]"))):
+    for d in sorted(glob.glob(os.path.join(ROOT, "seeded", "C*-[A-Z]"))):
         name = os.path.basename(d)
         meta = json.load(open(os.path.join(d, "meta.json")))
         own = (meta.get("detection") or {}).get(meta["property"], {})
